@@ -21,6 +21,8 @@ from pyvc.state import Unsupported
 from pyvc.symexec import Frame
 from pyvc.vals import TRef, V, Val, uf
 
+import os as _os
+
 ENABLED = False
 DROP_ZERO_TAIL = True
 PROPS = ('C05', 'C06')
@@ -309,9 +311,14 @@ def _patch_discharge():
                      (f'(without the {len(quant) - len(nontype)} type-only quantified hypotheses of {len(H)})', ground + nontype, 2500),
                      (f'(last 90 of {len(H)} hypotheses)', H[-90:], 1500),
                      (f'(ground + last 120 quantified non-type hypotheses of {len(H)})', ground + nontype[-120:], 2500)]
+            # wall-clock budgets: stretched when the machine is overloaded (shared host), at most sixfold
+            try:
+                stretch = min(6.0, max(1.0, _os.getloadavg()[0] / (_os.cpu_count() or 1)))
+            except OSError:      # pragma: no cover
+                stretch = 1.0
             for label, hyps, tmo in plans:
                 s = z3.Solver()
-                s.set('timeout', min(tmo, timeout_ms))
+                s.set('timeout', int(min(tmo * stretch, timeout_ms)))
                 for a in _verify.background_axioms():
                     s.add(a)
                 s.add(*hyps)
